@@ -96,7 +96,8 @@ ClientSets == { <<>>, <<"rev">>, <<"rev2">>, <<"rev", "rev2">>, <<"rev2", "rev">
 HandlerSets == { <<>>, <<"rev">>, <<"rev2">>, <<"rev", "rev2">>, <<"rev2", "rev">> }
 GenC08Init ==
   \E p \in Protos, k \in Kinds, ca \in ClientSets, hp \in HandlerSets, cmin \in {0, 8}, hmin \in {0, 8} :
-    \E csn \in {"none", "gzip"} \cup Range(ca), s1 \in {7, 8, 9}, s2 \in {7, 8, 9} :
+    \* value lengths 5, 6, 7: encoded sizes 7, 8, 9 (a BytesValue adds two bytes) around the threshold of 8
+    \E csn \in {"none", "gzip"} \cup Range(ca), s1 \in {5, 6, 7}, s2 \in {5, 6, 7} :
       InitWith(Mk(p, k, "proto", 2, <<csn, ca>>, cmin, hp, hmin, <<>>, <<M(1, s1)>>, <<>>, <<>>, <<M(101, s2)>>, OK))
 GenC08Spec == GenC08Init /\ [][FALSE]_vars
 
